@@ -104,12 +104,22 @@ class R:
                 cur["isub"] = self.query()
             elif e == "having":
                 cur["having"] = self.query()
+            elif e == "on":
+                # the condition of the join just written: JOIN x ON c1 IN ( SELECT ... )
+                j, toks = cur["from"][-1][:2]
+                cur["from"][-1] = (j, toks, self.query())
             elif e == "union":
                 branches.append(cur)
                 cur = {"from": [], "where": None, "isub": None, "having": None}
                 self.scopes[-1] = 0          # every branch of a set operation is a scope of its own
-            elif e == "end":
+            elif e == "ubranch":
+                # the next branch is a parenthesised query with a set operation of its own
                 branches.append(cur)
+                branches.append({"nested": self.query()})
+                cur = None
+            elif e == "end":
+                if cur is not None:
+                    branches.append(cur)
                 self.scopes.pop()
                 break
             else:
@@ -118,6 +128,9 @@ class R:
         for bi, b in enumerate(branches):
             if bi:
                 out += [self.kw("union"), self.kw("all")]
+            if "nested" in b:
+                out += ["("] + b["nested"] + [")"]
+                continue
             out += [self.kw("select"), self.ident("c1")]
             if b["isub"]:
                 out += [",", "("] + b["isub"] + [")", self.kw("as"), self.ident("c2")]
@@ -147,11 +160,14 @@ class R:
 
     def from_list(self, items):
         out = []
-        for join, toks in items:
+        for it in items:
+            join, toks = it[:2]
             if join == "first":
                 out += toks
             elif join == "comma":
                 out += [","] + toks
+            elif len(it) > 2:
+                out += [self.kw(w) for w in self.o.join_kw.split()] + toks + [self.kw("on"), self.ident("c1"), self.kw("in"), "("] + it[2] + [")"]
             else:
                 out += [self.kw(w) for w in self.o.join_kw.split()] + toks + [self.kw("on"), "1", "=", "1"]
         return out
@@ -224,6 +240,9 @@ class R:
                 cur["from"].append((ev["a"], ["("] + self.from_list(self.paren_items()) + [")"]))
             elif e == "where":
                 cur["where"] = self.query()
+            elif e == "on":
+                j, toks = cur["from"][-1][:2]
+                cur["from"][-1] = (j, toks, self.query())
             elif e == "end":
                 return cur
             else:
